@@ -676,6 +676,11 @@ class Problem(  # type: ignore[misc]
 
         :param trajectory_constraint: The expression added to the `Problem`.
         """
+        if constraint.is_bool_constant():
+            # what a trivially true/false constraint is stored as (see the simplify() below):
+            # cloning, compiling or reading back a problem re-adds its stored constraints
+            self._trajectory_constraints.append(constraint)
+            return
         if constraint.is_and() or constraint.is_forall():
             for arg in constraint.args:
                 assert (
